@@ -59,7 +59,7 @@ impl Scenario for C14 {
     fn meta(&self) -> Meta {
         Meta {
             level: "exploration",
-            rule: "run = one real node (consensus processor, timer-driven bundling, real mempool) preloaded with 2-5 blocks; 4..40/120 operations from {valid payment, two-input payment, conflicting spend of a pooled input, duplicate, staging tick (moves received transactions into the pool without a block), bundling tick, peer block confirming a pooled transaction, peer block spending one of the two inputs of a pooled transaction, peer block conflicting with a pooled transaction, invalid peer block, plain peer block, two-block peer fork that reorganises away the last block}. After every operation: no two pooled transactions share a value-carrying input; every pooled transaction validates against the current ledger; reserved inputs (utxo_map) are a subset of the pooled transactions' inputs; cached routing work equals the sum over pooled transactions; a bundling tick either produced a block that the node adopted and whose transactions left the pool, or left the pool unchanged; and a fresh valid payment from an unspent output that no pooled transaction spends enters the pool (tried on a scratch basis: the probe transaction is removed again). distinct_nontrivial = distinct op-sequence digests with >= 1 pool/ledger conflict event.",
+            rule: "run = one real node (consensus processor, timer-driven bundling, real mempool) preloaded with 2-5 blocks; 4..40/120 operations from {valid payment (half of them routed to the node with a fee, so that they carry routing work), two-input payment, conflicting spend of a pooled input, duplicate, staging tick (moves received transactions into the pool without a block), bundling tick, peer block confirming a pooled transaction, peer block spending one of the two inputs of a pooled transaction, peer block conflicting with a pooled transaction, invalid peer block, plain peer block, two-block peer fork that reorganises away the last block}. After every operation: no two pooled transactions share a value-carrying input; every pooled transaction validates against the current ledger; reserved inputs (utxo_map) are a subset of the pooled transactions' inputs; cached routing work equals the sum over pooled transactions; a bundling tick either produced a block that the node adopted and whose transactions left the pool, or left the pool unchanged; and a fresh valid payment from an unspent output that no pooled transaction spends enters the pool (tried on a scratch basis: the probe transaction is removed again). distinct_nontrivial = distinct op-sequence digests with >= 1 pool/ledger conflict event.",
             real: &["Mempool::add_transaction_if_validates/add_transaction/bundle_block/can_bundle_block/delete_transactions", "ConsensusThread::process_event/process_timer_event/bundle_block", "Blockchain::add_blocks_from_mempool/remove_block_transactions/add_block_failure", "Block::create"],
             stubs: &["no network (blocks and transactions are injected at the consensus processor's channel)", "SimClock", "universe builder for peer blocks"],
             assumptions: &["event-granularity scheduling", "the active probe removes its transaction (and reservation) again"],
@@ -176,6 +176,12 @@ impl Scenario for C14 {
                             let fee = (op.b * 311) % (total / 4 + 1);
                             tagc += 1;
                             let mut t = make_tx(&w.keys[u].clone(), &ins, &[(w.keys[1 + ((u + 1) % 3)].pk, (total - fee) / 2), (w.keys[u].pk, total - fee - (total - fee) / 2)], sim.now() + tagc, &tagc.to_le_bytes());
+                            if op.a % 2 == 0 {
+                                // routed to this node: carries routing work for it (the cached sum matters)
+                                let uk = w.keys[u].clone();
+                                t.add_hop(&uk.sk, &uk.pk, &nkey.pk);
+                                r.probe("routed_fee_tx");
+                            }
                             t.generate(&nkey.pk, 0, 0);
                             last_sent = Some(t.clone());
                             send_tx(&mut sim, t);
